@@ -182,10 +182,11 @@ class Axis(GetSetDelAttrMixin, AbstractAxis):
         >>> a.values
         array(['a', 2.0, 3.0], dtype=object)
         """
-        self._values = _maybe_cast_type(self.values, value) # self.values: computed on demand for a MultiAxis
+        values = _maybe_cast_type(self.values, value) # self.values: computed on demand for a MultiAxis
 
-        # now can proceed to asignment
-        self._values[item] = value
+        # now can proceed to asignment (the widened array replaces the labels only once it went through)
+        values[item] = value
+        self._values = values
 
         # here could do some additional check about _monotonic and other axis attributes
         # for now just set to None
